@@ -141,6 +141,8 @@ def _jobrun(argv):
     """python -m lib.core job <module> <func> <kwargs-json-file> <out-file>"""
     mode, modname, func, kwfile, outfile = argv
     sys.path.insert(0, ROOT)
+    import logging
+    logging.disable(logging.CRITICAL)
     kwargs = json.load(open(kwfile))
     t0 = time.time()
     try:
